@@ -3,7 +3,7 @@
    [reachable g s] = some sequence of atomic blocks of the main thread, the pool threads and the environment,
    in ANY interleaving, leads from the initial state to s. *)
 From Coq Require Import List ZArith Bool Lia.
-From GV Require Import Base.Enc Model.GThread Proof.GThreadProofs.
+From GV Require Import Base.Enc Model.GThread Proof.GThreadProofs Proof.GThreadReap.
 Import ListNotations.
 Local Open Scope Z_scope.
 
@@ -120,6 +120,16 @@ Theorem C13_keepalive_expires : forall g s c pre rest, mpc s = MWait -> orphan s
 Proof. exact keepalive_expires. Qed.
 Print Assumptions C13_keepalive_expires.
 
+(* ... and the reaper runs in EVERY iteration, also in one whose select() returned events: from poller.select with any
+   admissible event list that does not concern the oldest idle connection, the main thread alone (n of its atomic blocks)
+   closes that connection once its keep-alive time has passed - other traffic does not keep an expired connection open *)
+Theorem C13_reaper_runs_in_busy_iterations : forall g s evs c, reachable g s -> mpc s = MSel -> evs_ok g s evs = true ->
+  ~ In (EvRd c) evs -> orphan s = false -> head_kept c s ->
+  (exists x, getc s c = Some x /\ tmo x <= clock s) ->
+  exists n s', run g s (LMain evs false :: repeat m_ n) = Some s' /\ exists x', getc s' c = Some x' /\ st x' = CClosed.
+Proof. exact busy_iteration_reaps. Qed.
+Print Assumptions C13_reaper_runs_in_busy_iterations.
+
 (* returns to zero: partial - when every connection has been closed the counter is 0 (that they do get closed when
    the clients leave is C13_served_if_thread_free for the EOF event + the Finish step; refuted at capacity, above) *)
 Theorem C13_returns_to_zero_partial : forall g s, reachable g s ->
@@ -161,6 +171,19 @@ Example not_before_example :
   (exists x, getc (the (run gx sx2 [m_; m_]) sx2) 0%nat = Some x /\ st x = CKeep)
   /\ (exists x, getc (the (run gx sx3 [m_; m_]) sx3) 0%nat = Some x /\ st x = CExpiring).
 Proof. split; vm_compute; eexists; split; reflexivity. Qed.
+
+(* an expired idle connection (deadline 1, clock 1) while the loop stands at select and a new client is waiting to be accepted *)
+Definition sy : state := the (run gx sx2 [m_; m_; m_; LConnect; LTick]) sx2.
+Example busy_reaper_hypotheses_satisfiable :
+  reachable gx sy /\ mpc sy = MSel /\ evs_ok gx sy [EvAcc 0%nat] = true /\ ~ In (EvRd 0%nat) [EvAcc 0%nat]
+  /\ orphan sy = false /\ head_kept 0%nat sy /\ backlog sy = [1%nat]
+  /\ exists x, getc sy 0%nat = Some x /\ st x = CKeep /\ tmo x <= clock sy.
+Proof.
+  split. exists (lx2 ++ [m_; m_; m_; LConnect; LTick]). vm_compute. reflexivity.
+  split. reflexivity. split. reflexivity. split. intros [H|[]]; discriminate. split. reflexivity.
+  split. exists []. reflexivity. split. reflexivity.
+  eexists. split. vm_compute. reflexivity. split. reflexivity. vm_compute. discriminate.
+Qed.
 
 Example stalled_example : reachable g20 s20a /\ stalled g20 s20a.
 Proof. split. exact s20a_reach. exact s20a_stalled. Qed.
